@@ -27,6 +27,16 @@ HISTORY = {
     "C17-4": "round 2. first run: caught by C06 only; the argument snapshot now contains a copy of the public exponents (not just keys and bytes), and operands are reused after differentiation",
     "C20-3": "round 2 (same two-site mechanism as C17-4, written independently). first run: caught by C06 only; C20 gained 'reuse' sequences (operand used again after derivative / gradient / call), C17 the exponent snapshot",
     "C20-4": "round 2. first run: missed; the text part now also goes through BytesIO and files with encoding latin1 / utf-8 / default",
+    "C04-3": "round 2. needs retain_names=False: first run caught by C15 only; C04 now also runs under random retain settings (checking what alignment must guarantee under any setting)",
+    "C07-3": "round 2. first run: missed; a universe with unsigned coefficients (uint8..uint64, full-shape operands so that nothing is promoted) was added",
+    "C09-3": "round 2. first run: caught by C12 only; joins now mix coefficient kinds (narrower first or last)",
+    "C09-4": "round 2. first run: missed; reshape is now also called with order='A' on transposed (Fortran-contiguous) views, the expected order being derived from the operand's memory layout",
+    "C10-3": "round 2. first run: missed; diff's prepend/append now come in other coefficient kinds than the array",
+    "C11-3": "round 2. first run: missed; true_divide / floor_divide are now also called with out= being the dividend itself",
+    "C15-4": "round 2. first run: missed; the whole-program entries now evaluate a polynomial in which all terms of an indeterminate cancel with float arguments (result dtype compared across settings)",
+    "C18-3": "round 2. first run: missed; start/stop are now also passed as numpy scalars and arrays of signed and unsigned dtypes",
+    "C19-3": "round 2. first run: missed; argmax/argmin are now also called with out= and the buffer is compared with the returned index (C19 and the C11 mirror entries argmax_out/argmin_out)",
+    "C19-4": "round 2. needs retain_names=False: first run missed; set_dimensions now runs under random retain settings",
     "C06-2": "first run: caught by C06, missed by C15; C15's derivative entry now differentiates with respect to several variables",
 }
 REJECTED = [
